@@ -165,7 +165,9 @@ def run_site(case):
 ATOMS = ["'}'", '"|"', "'a|b}'", '"}}"', "'''x|}\ny'''", "{'k': '}'}['k']", "{'a|': 1}['a|']", "(3 | 4)", "[1 | 2, 4][0]", "{1: {2: '}'}}[1][2]",
          "(lambda d={'}': '|'}: d['}'])()", "'#'", "[1, # }| comment\n 2][1]", "(1,\n 2)[1]", "'\\''", '"\\"}"', "'\\\\'", "{}", "dict(a='}')['a']",
          "{'x': [1, {'y': '|'}]}['x'][1]['y']", "f'{1 | 2}'", "'%s' % ('}',)", "\"it's | }\"", "[c for c in '}|'][0]",
-         "{\n 'k': 1\n}['k']", "( # comment with } and |\n 5)", "'''\n}\n'''.strip()"]
+         "{\n 'k': 1\n}['k']", "( # comment with } and |\n 5)", "'''\n}\n'''.strip()",
+         # a backslash-newline continuation inside a literal, followed by } and | in the same literal
+         "'a\\\n}b|c'", '"a\\\n|}"', "'''x\\\n}|y'''", "'p\\\r\n}q'"]
 
 
 def spelling_cases():
